@@ -38,6 +38,10 @@ CAUGHT = {
  "C04d": "C04 `TR_MapAccess` (duplicate decision on quoted / plain look-alike keys) and `TV_MapAccess`", "C07d": "C07 `TV_Budget` and `TR_Budget` (key / value phase after a complex key)",
  "C13d": "C13 `TV_Emitter` (random values: variant with a map payload as the value of a composite key)", "C14d": "C14 `TV_AnchorStore` (chains with several back edges)",
  "C20d": "C20 `TV_Emitter` (Commented empty sequence as a mapping value)",
+ "C09d": "C09 `TV_ReaderInput` kind `agree`: typed requests (deserialize_str, field names, numbers, chars; tagged scalars) through all seven entry points (added for it)",
+ "C10d": "C10 `TV_ReaderInput` kind `typed-fault`: typed iterators / readers under every truncation point, fault and cap; values yielded before the error must be those of the complete text (added for it)",
+ "C15d": "C15 `TV_AnchorStore` histories (nested call between anchored nodes)", "C19d": "C19 `TV_Robotics` (`wrong-value`, nested unit calls)",
+ "C18d": "NOT caught: needs a map-typed validated field, DuplicateKeyPolicy::LastWins and a repeated key - outside the validated family the property quantifies over (see 0.6)",
  "C16a": "C16 `TV_Locations` (`merged-entry-not-attributed-to-its-merge`)", "C17a": "C17 `TV_Snippet` (`ring` family)",
  "C18a": "C18 `TV_PathMap` through the Display channels", "C19a": "C19 `TV_Robotics` (`wrong-value`)", "C20a": "C20 `TV_Emitter`",
 }
